@@ -449,10 +449,38 @@ func (pl *planner) tryStmt(fd *ast.FuncDecl, file *ast.File, s ast.Stmt, insertA
 			call = simple(x.Init)
 		}
 	}
+	var condRoot *ast.BinaryExpr
 	if call == nil {
-		return
+		// a candidate call in the right operand of a top-level && / ||: evaluated conditionally, hoisted under a test
+		var root ast.Expr
+		switch x := s.(type) {
+		case *ast.IfStmt:
+			if x.Init == nil {
+				root = x.Cond
+			}
+		case *ast.AssignStmt:
+			if len(x.Rhs) == 1 && len(x.Lhs) == 1 {
+				if _, isId := x.Lhs[0].(*ast.Ident); isId {
+					root = x.Rhs[0]
+				}
+			}
+		case *ast.ReturnStmt:
+			if len(x.Results) == 1 {
+				root = x.Results[0]
+			}
+		}
+		if be, ok := root.(*ast.BinaryExpr); ok && (be.Op == token.LAND || be.Op == token.LOR) {
+			if c, b := pl.firstCall(be.X); c == nil && !b {
+				if c2, b2 := pl.firstCall(be.Y); c2 != nil && !b2 {
+					call, condRoot = c2, be
+				}
+			}
+		}
+		if call == nil {
+			return
+		}
 	}
-	pl.inline(fd, file, s, insertAt, call, wholeStmt)
+	pl.inline(fd, file, s, insertAt, call, wholeStmt, condRoot)
 }
 
 func (pl *planner) offset(p token.Pos) int { return pl.fset.PositionFor(p, false).Offset }
@@ -488,7 +516,7 @@ func (pl *planner) typeString(t types.Type, file *ast.File) (string, bool) {
 	return s, ok
 }
 
-func (pl *planner) inline(fd *ast.FuncDecl, file *ast.File, s ast.Stmt, insertAt token.Pos, call *ast.CallExpr, wholeStmt bool) {
+func (pl *planner) inline(fd *ast.FuncDecl, file *ast.File, s ast.Stmt, insertAt token.Pos, call *ast.CallExpr, wholeStmt bool, cond *ast.BinaryExpr) {
 	callee := pl.staticCallee(call)
 	cd := pl.decls[callee]
 	cfile := pl.fileOf[cd]
@@ -749,9 +777,27 @@ func (pl *planner) inline(fd *ast.FuncDecl, file *ast.File, s ast.Stmt, insertAt
 	}
 	_ = cfile
 	fmt.Fprintf(&pre, "%s: for { %s%s\n; break %s }; ", label, pl.lineDirective(cd.Body.Lbrace+1), body.String(), label)
-	pre.WriteString(pl.lineDirective(insertAt))
 
-	// --- the two edits
+	// --- the edits
+	if cond != nil {
+		// X op Y with the call inside Y:  c := X; if [!]c { <inlined call>; c = Y' }   and the expression becomes c
+		if len(resNames) != 1 {
+			fail("call in a short-circuit operand does not have exactly one result")
+			return
+		}
+		cv := "cond" + suffix
+		neg := ""
+		if cond.Op == token.LOR {
+			neg = "!"
+		}
+		yText := string(src[pl.offset(cond.Y.Pos()):pl.offset(call.Pos())]) + resNames[0] + string(src[pl.offset(call.End()):pl.offset(cond.Y.End())])
+		full := fmt.Sprintf("%s := (%s); if %s%s { %s%s = (%s) }; %s", cv, text(cond.X), neg, cv, pre.String(), cv, yText, pl.lineDirective(insertAt))
+		pl.edits = append(pl.edits, Edit{File: fname, Start: pl.offset(insertAt), End: pl.offset(insertAt), Text: full, Site: site, group: k})
+		pl.edits = append(pl.edits, Edit{File: fname, Start: pl.offset(cond.Pos()), End: pl.offset(cond.End()), Text: cv + pl.lineDirective(cond.End()), Site: site, group: k})
+		pl.log = append(pl.log, "inlined: "+site)
+		return
+	}
+	pre.WriteString(pl.lineDirective(insertAt))
 	pl.edits = append(pl.edits, Edit{File: fname, Start: pl.offset(insertAt), End: pl.offset(insertAt), Text: pre.String(), Site: site, group: k})
 	var repl string
 	switch {
